@@ -33,6 +33,7 @@ type HarnessFile struct {
 	Hooks   []HookSpec
 	Substs  []SubstSpec
 	Replace map[string]string
+	Shards  map[string]int
 	Assume  []string
 	Outside []string
 	Stubs   []string
@@ -48,7 +49,7 @@ func parseHarness(path string) (*HarnessFile, error) {
 	if err != nil {
 		return nil, err
 	}
-	h := &HarnessFile{Path: path, Src: src, Quick: 300 * time.Second, Thor: 3 * time.Hour, Replace: map[string]string{}}
+	h := &HarnessFile{Path: path, Src: src, Quick: 300 * time.Second, Thor: 3 * time.Hour, Replace: map[string]string{}, Shards: map[string]int{}}
 	sc := bufio.NewScanner(strings.NewReader(string(src)))
 	sc.Buffer(make([]byte, 1<<20), 1<<20)
 	for sc.Scan() {
@@ -96,6 +97,13 @@ func parseHarness(path string) (*HarnessFile, error) {
 				return nil, fmt.Errorf("%s: bad replace directive %q", path, l)
 			}
 			h.Replace[f[0]] = f[1]
+		case "shard":
+			f := strings.Fields(rest)
+			if len(f) != 2 {
+				return nil, fmt.Errorf("%s: bad shard directive %q", path, l)
+			}
+			n, _ := strconv.Atoi(f[1])
+			h.Shards[f[0]] = n
 		case "assume":
 			h.Assume = append(h.Assume, rest)
 		case "outside":
@@ -137,6 +145,7 @@ type group struct {
 }
 
 type JobResult struct {
+	Shard    string
 	Harness  string
 	Dir      string
 	Eng      *sx.Engine
@@ -357,7 +366,7 @@ func runWithTimeout(cmd *exec.Cmd, d time.Duration) (string, error) {
 	}
 }
 
-func runJob(g *group, fn string, opt Options) *JobResult {
+func runJob(g *group, fn string, shard, nshard int, opt Options) *JobResult {
 	t0 := time.Now()
 	budget := 10000
 	if opt.Tier == "thorough" {
@@ -385,7 +394,11 @@ func runJob(g *group, fn string, opt Options) *JobResult {
 	if opt.Tier == "thorough" {
 		eng.WitnessMax = 40
 	}
+	eng.ShardIdx, eng.ShardN = shard, nshard
 	jr := &JobResult{Harness: fn, Dir: g.dir, Eng: eng, Sol: sol}
+	if nshard > 1 {
+		jr.Shard = fmt.Sprintf("#%d/%d", shard, nshard)
+	}
 	func() {
 		defer func() {
 			if r := recover(); r != nil {
@@ -460,8 +473,9 @@ func RunProperty(opt Options) int {
 		}
 	}
 	type job struct {
-		g  *group
-		fn string
+		g      *group
+		fn     string
+		sh, ns int
 	}
 	var jobs []job
 	for _, d := range order {
@@ -469,7 +483,15 @@ func RunProperty(opt Options) int {
 			if opt.Only != "" && !strings.Contains(fn, opt.Only) {
 				continue
 			}
-			jobs = append(jobs, job{groups[d], fn})
+			ns := 1
+			for _, f := range groups[d].files {
+				if n, ok := f.Shards[fn]; ok && n > 1 {
+					ns = n
+				}
+			}
+			for sh := 0; sh < ns; sh++ {
+				jobs = append(jobs, job{groups[d], fn, sh, ns})
+			}
 		}
 	}
 	if len(jobs) == 0 {
@@ -478,7 +500,7 @@ func RunProperty(opt Options) int {
 	}
 	workers := opt.Workers
 	if workers <= 0 {
-		workers = 8
+		workers = 14
 	}
 	results := make([]*JobResult, len(jobs))
 	ch := make(chan int)
@@ -488,10 +510,10 @@ func RunProperty(opt Options) int {
 		go func() {
 			defer wg2.Done()
 			for i := range ch {
-				results[i] = runJob(jobs[i].g, jobs[i].fn, opt)
+				results[i] = runJob(jobs[i].g, jobs[i].fn, jobs[i].sh, jobs[i].ns, opt)
 				r := results[i]
-				fmt.Printf("  [%s] %s: paths=%d completed=%d dropped=%d asserts=%d queries=%d (cache %d) solver=%.1fs wall=%.1fs viol=%d inconcl=%d\n",
-					r.Dir, r.Harness, r.Eng.Paths, r.Eng.Completed, r.Eng.Dropped, r.Eng.Asserts, r.Sol.Queries, r.Sol.CacheHits, r.Sol.Time.Seconds(), r.Wall, len(r.Eng.Violations), len(r.Eng.Inconclusive))
+				fmt.Printf("  [%s] %s%s: paths=%d completed=%d dropped=%d asserts=%d queries=%d (cache %d) solver=%.1fs wall=%.1fs viol=%d inconcl=%d\n",
+					r.Dir, r.Harness, r.Shard, r.Eng.Paths, r.Eng.Completed, r.Eng.Dropped, r.Eng.Asserts, r.Sol.Queries, r.Sol.CacheHits, r.Sol.Time.Seconds(), r.Wall, len(r.Eng.Violations), len(r.Eng.Inconclusive))
 			}
 		}()
 	}
